@@ -174,21 +174,36 @@ theorem docx_model_table_cell (rows : List (List Cell)) (gridCols r i : Nat) (ro
       | inr h => exact h
   exact model_grid_cell (fun c : Cell => c.colSpan) (fun c : Cell => c.cont) mcellOf _ rows r i row c hr hc hcont hw hlt
 
-/-- every cell of a parsed DOCX table is 1..1024 columns wide (after the vertical-merge pass too) -/
+/-- every cell of a parsed DOCX table is 1..1024 columns wide (after `limitTableGrid` and the
+vertical-merge pass too: a span is the authored one, which is bounded, or reset to 1) -/
 theorem parseTable_span_pos (tbl : Node) (row : List Cell) (c : Cell) (hrow : row ∈ parseTable tbl) (hc : c ∈ row) :
     1 ≤ c.colSpan ∧ c.colSpan ≤ 1024 := by
-  have hg := C16.table_grid tbl
+  have hg := C16.table_grid_any tbl
   have h1 : row.map strip ∈ stripRows (parseTable tbl) := List.mem_map_of_mem hrow
   rw [hg] at h1
-  obtain ⟨tr, _, htr⟩ := List.mem_map.mp h1
+  obtain ⟨row0, hrow0, hr0⟩ := List.mem_map.mp h1
   have h2 : strip c ∈ row.map strip := List.mem_map_of_mem hc
-  rw [← htr] at h2
-  obtain ⟨tc, _, htc⟩ := List.mem_map.mp h2
-  have : (parseCell tc).colSpan = c.colSpan := by
-    have := congrArg (fun t : Str × Nat × Bool => t.2.1) htc
+  rw [← hr0] at h2
+  obtain ⟨c0, hc0, hc0e⟩ := List.mem_map.mp h2
+  have hspan : c0.colSpan = c.colSpan := by
+    have := congrArg (fun t : Str × Nat × Bool => t.2.1) hc0e
     simpa [strip] using this
-  rw [← this]
-  exact C16.docx_span_bounded tc
+  rw [← hspan]
+  cases limit_cases (parseRows tbl) with
+  | inl he =>
+    rw [he] at hrow0
+    simp only [parseRows, List.mem_map] at hrow0
+    obtain ⟨tr, _, rfl⟩ := hrow0
+    simp only [List.mem_map] at hc0
+    obtain ⟨tc, _, rfl⟩ := hc0
+    exact C16.docx_span_bounded tc
+  | inr he =>
+    rw [he] at hrow0
+    simp only [resetSpans, List.mem_map] at hrow0
+    obtain ⟨r1, _, rfl⟩ := hrow0
+    simp only [List.mem_map] at hc0
+    obtain ⟨c1, _, rfl⟩ := hc0
+    exact ⟨Nat.le_refl 1, by show 1 ≤ 1024; omega⟩
 
 /-- non-vacuity: a 2x3 table, first row one cell two columns wide and a plain cell, second row a
 continuation under the wide cell and a plain cell; the document model's grid -/
@@ -257,8 +272,9 @@ children in source order, each processed by itself; `Text()` shows their texts (
 texts = runs and inline content in source order, `para_inline_order`; cell texts row by row)
 in that order; so does the Markdown buffer, of which `Markdown()` cuts only newlines at the
 ends; and the page of `Document()`, lists taken apart, is these elements in that order with
-their heading levels, list levels and table grids. -/
-theorem docx_end_to_end (docTag bodyTag : Str) (da ba : List (Str × Str)) (pre kids post : List Node)
+their heading levels, list levels and table grids. (About the reader `Open` builds when it
+succeeds; `docx_end_to_end` below says when it does.) -/
+theorem docx_reader_end_to_end (docTag bodyTag : Str) (da ba : List (Str × Str)) (pre kids post : List Node)
     (styles numbering : Option Node) (headers footers : List Node)
     (hdoc : localName docTag ≠ sBody) (hbody : localName bodyTag = sBody)
     (hpre : noBodyList pre = true) (hpost : noBodyList post = true) :
@@ -294,6 +310,62 @@ theorem docx_end_to_end (docTag bodyTag : Str) (da ba : List (Str × Str)) (pre 
     rw [hfst] at this
     exact this
   · rw [docx_document_flatten, hels]
+
+/-- **docx_end_to_end**. RESTATED (was: for every document tree with one body; the statement
+of `docx_reader_end_to_end`): `paragraphXML.decodeContent` now refuses the 10001st level of
+nested inline containers and `docx.Open` then fails. With `hdec` - every paragraph
+`xml.Unmarshal` decodes (body paragraphs, paragraphs of the cells of body tables) nests its
+inline containers at most `maxInlineDepth` = 10000 deep (`documentDecodes`, decidable;
+`C16Bounds.docx_decodes_iff_depth`) - `Open` succeeds and the reader presents the body as
+stated. Beyond the bound `docx_refused`: `Open` returns an error, nothing is presented. -/
+theorem docx_end_to_end (docTag bodyTag : Str) (da ba : List (Str × Str)) (pre kids post : List Node)
+    (styles numbering : Option Node) (headers footers : List Node)
+    (hdoc : localName docTag ≠ sBody) (hbody : localName bodyTag = sBody)
+    (hpre : noBodyList pre = true) (hpost : noBodyList post = true)
+    (hdec : documentDecodes (.elem docTag da (pre ++ [.elem bodyTag ba kids] ++ post)) = true) :
+    ∃ rd, openReader? (.elem docTag da (pre ++ [.elem bodyTag ba kids] ++ post)) styles numbering headers footers = some rd ∧
+      (let body := kids.filter isBodyElem
+       rd.elements = body.map (fun n => (processElement (stylesOf styles) n, gridColsOf n))
+       ∧ InOrder (body.map (shownText (stylesOf styles))).flatten (text rd)
+       ∧ InOrder ((body.map (processElement (stylesOf styles))).map (mdTexts rd {})).flatten (markdownRaw rd {} {})
+       ∧ (∃ a b, markdownRaw rd {} {} = a ++ markdown rd ++ b ∧ (∀ c ∈ a, c = 10) ∧ (∀ c ∈ b, c = 10))
+       ∧ flattenDoc (document rd) = (body.map (fun n => (processElement (stylesOf styles) n, gridColsOf n))).filterMap entryOf) := by
+  refine ⟨openReader (.elem docTag da (pre ++ [.elem bodyTag ba kids] ++ post)) styles numbering headers footers, ?_, ?_⟩
+  · unfold openReader?
+    rw [if_pos hdec]
+  · exact docx_reader_end_to_end docTag bodyTag da ba pre kids post styles numbering headers footers hdoc hbody hpre hpost
+
+/-- **docx_refused**. A document.xml in which a decoded paragraph nests inline containers deeper
+than `maxInlineDepth` is refused: `docx.Open` returns the error of `xml.Unmarshal`, so there is
+no element list and no view (the three `tabula.Open(f)` views return the error). -/
+theorem docx_refused (doc : Node) (styles numbering : Option Node) (headers footers : List Node)
+    (h : documentDecodes doc = false) :
+    openElements doc styles = none ∧ openReader? doc styles numbering headers footers = none := by
+  simp [openElements, openReader?, h]
+
+/-- whether `Open` succeeds depends on document.xml alone, and when it does the element list is
+`Docx.elements` - the function the theorems of `Props/C16.lean` are about -/
+theorem docx_open_elements (doc : Node) (styles numbering : Option Node) (headers footers : List Node) :
+    (openReader? doc styles numbering headers footers).map (·.elements.map (·.1)) = openElements doc styles := by
+  unfold openReader? openElements
+  split
+  · simp [openReader, elements, List.map_map, Function.comp_def]
+  · rfl
+
+/-- **docx_headers_never_leak** through `Open`: whether the package opens and, with the default
+options, what its three views show do not depend on the header and footer parts (a part that
+cannot be decoded is left out, it never makes `Open` fail). -/
+theorem docx_headers_never_leak_open (doc : Node) (styles numbering : Option Node) (headers footers : List Node) (o : MdOptions) :
+    (openReader? doc styles numbering headers footers).map text = (openReader? doc styles numbering [] []).map text
+    ∧ (openReader? doc styles numbering headers footers).map (markdownWithRAGOptions · {} o)
+        = (openReader? doc styles numbering [] []).map (markdownWithRAGOptions · {} o)
+    ∧ (openReader? doc styles numbering headers footers).map document = (openReader? doc styles numbering [] []).map document := by
+  have h := docx_headers_never_leak doc styles numbering headers footers o
+  unfold openReader?
+  split
+  · simp only [Option.map_some]
+    exact ⟨congrArg some h.1, congrArg some h.2.1, congrArg some h.2.2⟩
+  · exact ⟨rfl, rfl, rfl⟩
 
 /-- non-vacuity: the witness document of `Props/C16.lean` (a table with a two-paragraph cell, a
 table, a paragraph) through the three views -/
